@@ -268,7 +268,16 @@ def check(run):
     thorough = run.tier == 'thorough'
     common.prove(run, 'C12', ['model/C12Flex.vo', 'model/C12FlexLines.vo', 'model/C12FlexSpec.vo', 'model/C12Grid.vo'])
     run.trusted += ['Coq 8.16.1 kernel (coqc); vm_compute for the cases.v evaluation',
-                    'harness/p_c12.py: translation of the generated CSS into model inputs (used flex basis, min/max, extras)']
+                    'harness/p_c12.py, p_c12grid.py: translation of the generated CSS into model inputs (used flex basis, '
+                    'min/max, outer extras, line numbers, track lists) and of rendered boxes into judge inputs',
+                    'monitors flex-monitor-wrap / flex-monitor-cross / grid-monitor are judged in Python']
+    run.assumptions += ['hand-written models (C12Flex, C12FlexLines, C12Grid) are tied to flex.py / grid.py by render '
+                        'correspondence only (tolerance 1e-6 px, integer/dyadic inputs), not by the translator',
+                        'flex theorems assume 0 <= flex-grow, 0 <= flex-shrink, 0 <= base, min <= max (the parser accepts '
+                        'negative factors: reported)',
+                        'cross-axis sizing/alignment (steps 7-16), rtl, intrinsic (content-based) flex bases and grid '
+                        'tracks, named grid lines are monitored, not proved',
+                        'available_main_space == inf (column container of indefinite height before step 4) is not modelled']
     k = 10 if thorough else 1
     plan = [('rows', 'plain', 'flex-row', 400 * k), ('rows', 'wide', 'flex-row-wide', 200 * k),
             ('mon', 'wrap', 'flex-monitor-wrap', 300 * k), ('mon', 'cross', 'flex-monitor-cross', 300 * k),
